@@ -139,6 +139,23 @@ def d2(chk, prog):
                 continue
             lg2, dp = out.data.cols["log2"].v[i], out.data.cols["depth"].v[i]
             tb2.cell(same(lg2, want) and same(dp, Fr(1, 2) if want == -1 else 1), dict(hap=hap, par=par, antitargets=anti, bin="antitarget" if i >= len(FLAT_CLASSES) else "target", cls=c, log2=repr(lg2), depth=repr(dp), want=want))
+    # bed2probes: the regions as neutral bins (names kept, '-' when the file has none); GenomicArray.add appends the antitargets and re-sorts
+    fb = prog.fn(f"{REF}.bed2probes")
+    for has_gene in (True, False):
+        W.reset()
+        model = Model()
+        rows = [dict(chromosome="chr2", start=5, end=50), dict(chromosome="chr1", start=0, end=10)]
+        if has_gene:
+            rows = [dict(r, gene=f"n{i}") for i, r in enumerate(rows)]
+        model.prims["skgenome.tabio.read_auto"] = lambda it, f, *a, **k: make_ga("GenomicArray", rows, {"filename": f}, exact=True)
+        it = Interp(prog, model)
+        out = tb2.guard(lambda: it.run(fb.qn, ["panel/my.targets.bed"]), f"bed2probes gene column={has_gene}")
+        if out is None:
+            continue
+        c = out.data.cols
+        ok = isinstance(out, GA) and out.data.n == 2 and list(c["chromosome"].v) == ["chr2", "chr1"] and [int(T(x).cval()) for x in c["start"].v] == [5, 0] and [int(T(x).cval()) for x in c["end"].v] == [50, 10] \
+            and list(c["gene"].v) == (["n0", "n1"] if has_gene else ["-", "-"]) and all(same(x, 0) for x in c["log2"].v) and all(same(x, 0) for x in c["spread"].v)
+        tb2.cell(ok, dict(function="bed2probes", gene_column=has_gene, columns={k: [repr(x) for x in v.v] for k, v in c.items() if not k.startswith("__")}, sample_id=out.meta.get("sample_id")))
     tb2.done("do_reference_flat does not store the flat profile / its depth on every bin")
 
 
@@ -501,6 +518,33 @@ def d9(chk, prog):
         if given is None:
             ok = ok and infer_args == [(tfiles, False, "grch38")] + ([(afiles, False, "grch38")] if with_anti else [])
         tb.cell(ok, dict(female_samples=given, antitargets=with_anti, sexes=dict(sexes) if isinstance(sexes, dict) else repr(sexes), want=want, infer_calls=[(a[0][0], a[1], a[2]) for a in infer_args]))
+    # infer_sexes itself: one entry per file whose array is non-empty and whose sex could be guessed
+    fs = prog.fn(f"{REF}.infer_sexes")
+    for hap, par in itertools.product([False, True], [None, "grch38"]):
+        W.reset()
+        model = Model()
+        calls = []
+        verdict = {"A": True, "B": False, "C": None}
+
+        def read(it, fname, *a, **k):
+            sid = fname.split(".")[0]
+            if sid == "E":
+                g = GA("CopyNumArray", DF({c: Vec([], aligned=True) for c in ("chromosome", "start", "end", "gene", "log2")}, 0), 0, {"sample_id": sid})
+                g.data.exact = True
+                return g
+            return make_ga("CopyNumArray", [dict(chromosome="chr1", start=0, end=1, gene="g", log2=0)], {"sample_id": sid}, exact=True)
+        model.prims["cnvlib.cmdutil.read_cna"] = read
+
+        def gx(it, obj, h=False, p=None, *a, calls=calls, **k):
+            calls.append((obj.meta["sample_id"], h, p))
+            return verdict[obj.meta["sample_id"]]
+        model.method_prims["guess_xx"] = gx
+        it = Interp(prog, model)
+        out = tb.guard(lambda: it.run(fs.qn, [["A.cnn", "E.cnn", "B.cnn", "C.cnn"], hap, par]), f"infer_sexes hap={hap} par={par}")
+        if out is None:
+            continue
+        tb.cell(isinstance(out, dict) and dict(out) == {"A": True, "B": False} and calls == [("A", hap, par), ("B", hap, par), ("C", hap, par)],
+                dict(function="infer_sexes", haploid_x_reference=hap, par=par, result=dict(out) if isinstance(out, dict) else repr(out), guess_calls=calls))
     tb.done("the per-sample sexes used to shift the sex chromosomes are not the given / inferred ones (a sample without a call is treated as male)")
 
 
